@@ -16,6 +16,7 @@ TRUSTED = [
 ]
 
 schema("PipelineStep")
+SINK = z3.Function("ALWAYS_CONSUMES", I, B)       # a step that returns None for every read it gets (the sinks and demultiplexers, C04/C15)
 schema("InputFiles")
 schema("Progress")
 StepT = ObjT("PipelineStep")
@@ -49,6 +50,8 @@ def install(world):
         paired = len(args) == 4
         args = [ex.need_not_none(a, st, node, "argument of a step") if isinstance(a, Opt) else a for a in args]
         out_none = fresh("step.returns_none", B)
+        st.pc.append(z3.Implies(SINK(step.fields["__id__"]), out_none))
+        st.env["$nconsumed"] = st.env["$nconsumed"] + z3.If(out_none, 1, 0)
         inv = []
         if paired:
             out = TupV((api.mk(Record, "step.out1", inv), api.mk(Record, "step.out2", inv)))
@@ -108,8 +111,9 @@ def log_spec(cx):
             z3.Implies(z3.And(s[c_] == 0, c_ > 0), z3.Or(nn[c_ - 1] == 1, s[c_ - 1] == L - 1)))), patterns=[s[c_]])
 
     def called_objects(st, n_calls, steps):
-        s, ob = G(st, "c_step").arr, G(st, "c_obj").arr
-        return FORALL([c_], z3.Implies(z3.And(0 <= c_, c_ < n_calls), ob[c_] == steps.arr[s[c_]]), patterns=[ob[c_]])
+        s, ob, nn = G(st, "c_step").arr, G(st, "c_obj").arr, G(st, "c_none").arr
+        return FORALL([c_], z3.Implies(z3.And(0 <= c_, c_ < n_calls), z3.And(ob[c_] == steps.arr[s[c_]], z3.Implies(SINK(ob[c_]), nn[c_] == 1))),
+                      patterns=[ob[c_]])
 
     def complete_before(st, upto, n_calls, L):
         """D: a chain is not cut short: unless a call returned None or was the last step, the next step is called next."""
@@ -160,6 +164,7 @@ def log_spec(cx):
         return SUML(reader.arr, mate, upto)
     cx.spec["sum_len"] = sum_len
     cx.spec["elem_id"] = lambda seq, k: seq.arr[k]
+    cx.spec["always_consumes"] = lambda step_id: SINK(step_id)
 
     def pair_id(reader, k, mate):
         from pyvc import heap
@@ -182,14 +187,15 @@ def single_process_reads(c):
     c.spec(log_spec)
     c.ghost_seqs = ["c_step", "c_obj", "c_in", "c_in2", "c_none", "c_out", "c_out2", "chain_start"]
     c.local_types["read"] = OptT(Record)
-    c.requires(empty_log=f"{N} == 0", at_least_the_sink="len(self._steps) >= 1")
+    c.requires(empty_log=f"{N} == 0 and gcount('nconsumed') == 0", at_least_the_sink="len(self._steps) >= 1",
+               the_last_step_is_a_sink="always_consumes(elem_id(self._steps, len(self._steps) - 1))")
     c.loop(1, head="for i, step in enumerate(self._steps, 1)", inv=["True"])
-    OUTER = [f"n == __k2 and {N} >= 0 and 0 <= __k2 <= len(reader) and total_bp == sum_len(reader, __k2)",
+    OUTER = [f"n == __k2 and {N} >= 0 and 0 <= __k2 <= len(reader) and total_bp == sum_len(reader, __k2) and gcount('nconsumed') == __k2",
              f"chained({N}, {L})", f"called_objects({N}, modifiers_and_steps)", f"complete_before({N}, {N}, {L})",
              f"one_chain_per_read(__k2, {N}, reader)",
              f"len(modifiers_and_steps) == {L}"]
     c.loop(2, head="for read in reader", inv=OUTER)
-    INNER = [f"n == __k2 + 1 and total_bp == sum_len(reader, __k2 + 1) and {N} >= 0 and 0 <= __k2 < len(reader) and len(modifiers_and_steps) == {L} and 0 <= __k3 <= {L}",
+    INNER = [f"n == __k2 + 1 and gcount('nconsumed') == __k2 and total_bp == sum_len(reader, __k2 + 1) and {N} >= 0 and 0 <= __k2 < len(reader) and len(modifiers_and_steps) == {L} and 0 <= __k3 <= {L}",
              f"chained({N}, {L})", f"called_objects({N}, modifiers_and_steps)", f"complete_before({N} - 1, {N}, {L})",
              f"one_chain_per_read(__k2 + (1 if __k3 > 0 else 0), {N}, reader)",
              "not is_none(read)",
@@ -198,6 +204,7 @@ def single_process_reads(c):
     c.loop(3, head="for step in modifiers_and_steps", inv=INNER)
     c.ensures(
         every_read_is_counted="result[0] == len(reader) and result[1] == sum_len(reader, len(reader)) and is_none(result[2])",
+        every_read_is_consumed_by_exactly_one_step="gcount('nconsumed') == len(reader)",
         calls_run_through_modifiers_then_steps_in_list_order_each_on_the_previous_result=f"chained({N}, {L}) and called_objects({N}, modifiers_and_steps) and is_concat(modifiers_and_steps, self._modifiers, self._steps)",
         a_chain_ends_only_at_the_first_none_or_after_the_last_step=f"complete_before({N}, {N}, {L})",
         every_input_read_starts_exactly_one_chain_in_input_order=f"one_chain_per_read(len(reader), {N}, reader)",
@@ -221,13 +228,14 @@ def paired_process_reads(c):
     c.spec(log_spec)
     c.ghost_seqs = ["c_step", "c_obj", "c_in", "c_in2", "c_none", "c_out", "c_out2", "chain_start"]
     c.local_types["reads"] = OptT(PairT)
-    c.requires(empty_log=f"{N} == 0", at_least_the_sink="len(self._steps) >= 1")
-    OUTER = [f"n == __k1 and {N} >= 0 and 0 <= __k1 <= len(reader) and total1_bp == sum_len(reader, __k1, 0) and total2_bp == sum_len(reader, __k1, 1)",
+    c.requires(empty_log=f"{N} == 0 and gcount('nconsumed') == 0", at_least_the_sink="len(self._steps) >= 1",
+               the_last_step_is_a_sink="always_consumes(elem_id(self._steps, len(self._steps) - 1))")
+    OUTER = [f"gcount('nconsumed') == __k1 and n == __k1 and {N} >= 0 and 0 <= __k1 <= len(reader) and total1_bp == sum_len(reader, __k1, 0) and total2_bp == sum_len(reader, __k1, 1)",
              f"chained2({N}, {L})", f"called_objects({N}, modifiers_and_steps)", f"complete_before({N}, {N}, {L})",
              f"one_chain_per_pair(__k1, {N}, reader)",
              f"len(modifiers_and_steps) == {L}"]
     c.loop(1, head="for reads in self._reader", inv=OUTER)
-    INNER = [f"n == __k1 + 1 and total1_bp == sum_len(reader, __k1 + 1, 0) and total2_bp == sum_len(reader, __k1 + 1, 1) and {N} >= 0 and "
+    INNER = [f"gcount('nconsumed') == __k1 and n == __k1 + 1 and total1_bp == sum_len(reader, __k1 + 1, 0) and total2_bp == sum_len(reader, __k1 + 1, 1) and {N} >= 0 and "
              f"0 <= __k1 < len(reader) and len(modifiers_and_steps) == {L} and 0 <= __k2 <= {L}",
              f"chained2({N}, {L})", f"called_objects({N}, modifiers_and_steps)", f"complete_before({N} - 1, {N}, {L})",
              f"one_chain_per_pair(__k1 + (1 if __k2 > 0 else 0), {N}, reader)",
@@ -238,6 +246,7 @@ def paired_process_reads(c):
              f"at('c_out', {N} - 1) == val(reads)[0].__id__ and at('c_out2', {N} - 1) == val(reads)[1].__id__)"]
     c.loop(2, head="for step in modifiers_and_steps", inv=INNER)
     c.ensures(
+        every_pair_is_consumed_by_exactly_one_step="gcount('nconsumed') == len(reader)",
         every_pair_is_counted="result[0] == len(reader) and result[1] == sum_len(reader, len(reader), 0) and val(result[2]) == sum_len(reader, len(reader), 1)",
         calls_run_through_modifiers_then_steps_in_list_order_each_on_the_pair_the_previous_call_returned=
         f"chained2({N}, {L}) and called_objects({N}, modifiers_and_steps) and is_concat(modifiers_and_steps, self._modifiers, self._steps)",
